@@ -247,6 +247,12 @@ def simple_generator(body):
     rest = list(body)
     while rest and isinstance(rest[0], ast.Assign) and len(rest[0].targets) == 1 and isinstance(rest[0].targets[0], ast.Name):
         pre.append(rest.pop(0))
+    if rest and all(isinstance(r, ast.Expr) and isinstance(r.value, ast.Yield) and r.value.value is not None and _pure_expr(r.value.value) for r in rest) and len(rest) <= 12:
+        # yield a; yield b; yield c   denotes the sequence (a, b, c)
+        ret = ast.Return(value=ast.Tuple(elts=[r.value.value for r in rest], ctx=ast.Load()))
+        ast.copy_location(ret, rest[0])
+        ast.fix_missing_locations(ret)
+        return pre + [ret]
     if len(rest) != 1 or not isinstance(rest[0], ast.For):
         return None
     gens = []
@@ -394,6 +400,8 @@ class Inliner:
         self.inlined_sites = {}
         self.failed_sites = {}
 
+    local_instances = {}  # local name -> class name, for `x = Cls(..)` in the function being processed
+
     def lookup(self, call, cur_cls):
         f = call.func
         if isinstance(f, ast.Name):
@@ -401,6 +409,11 @@ class Inliner:
         if isinstance(f, ast.Attribute) and isinstance(f.value, ast.Name):
             recv = f.value.id
             owner = cur_cls if recv in ("self", "cls") else (recv if any(k[0] == recv for k in self.helpers) else None)
+            if owner is None and recv in self.local_instances:
+                owner = self.local_instances[recv]
+                h = self.helpers.get((owner, f.attr))
+                if h is not None and h.kind != "method":
+                    return None, None
             seen = set()
             stack = [owner] if owner else []
             while stack:
@@ -550,6 +563,16 @@ class Inliner:
     # -- driver ------------------------------------------------------------------------------------
     def process_function(self, fn, cur_cls):
         changed = False
+        # locals bound once to a freshly constructed instance of a class of this module
+        self.local_instances = {}
+        counts = {}
+        for n in ast.walk(fn):
+            if isinstance(n, ast.Name) and isinstance(n.ctx, ast.Store):
+                counts[n.id] = counts.get(n.id, 0) + 1
+        for n in ast.walk(fn):
+            if isinstance(n, ast.Assign) and len(n.targets) == 1 and isinstance(n.targets[0], ast.Name) and counts.get(n.targets[0].id) == 1 \
+                    and isinstance(n.value, ast.Call) and isinstance(n.value.func, ast.Name) and any(k[0] == n.value.func.id for k in self.helpers):
+                self.local_instances[n.targets[0].id] = n.value.func.id
 
         def do_block(stmts):
             nonlocal changed
@@ -966,8 +989,16 @@ def _store_below_slice(store: ast.Subscript, value):
     return lo[1] - idx[1] > 0
 
 
-def _kills(st, paths, names, attrs, value=None):
-    """may executing `st` (its own expressions and nested statements) change the value of an expression reading paths/names?"""
+def _is_ref_path(e):
+    """a plain reference: name or attribute chain (what it denotes changes only by rebinding, not by mutating the object)"""
+    while isinstance(e, ast.Attribute):
+        e = e.value
+    return isinstance(e, ast.Name)
+
+
+def _kills(st, paths, names, attrs, value=None, alias=None):
+    """may executing `st` (its own expressions and nested statements) change the value of an expression reading paths/names?
+    alias: the local name bound to a plain reference `value` - calling methods on that object does not rebind the reference"""
     for n in ast.walk(st):
         if value is not None and isinstance(n, ast.Subscript) and isinstance(n.ctx, ast.Store) and _store_below_slice(n, value):
             continue
@@ -990,6 +1021,8 @@ def _kills(st, paths, names, attrs, value=None):
                     # stream / codec traffic does not touch the values the rules look at (the entry objects are updated by
                     # explicit attribute stores, which are caught above)
                     continue
+                if alias is not None and value is not None and _is_ref_path(value) and recv in (alias, ast.unparse(value)):
+                    continue  # the object is mutated, the reference still denotes it
                 if any(q == recv or q.startswith(recv + ".") or q.startswith(recv + "[") for q in paths | names):
                     return True
                 if recv in ("self", "cls") and any(q.startswith("self.") for q in paths):
@@ -1219,7 +1252,7 @@ class CopyProp:
             is_loop = isinstance(st, (ast.For, ast.While))
             if is_loop or isinstance(st, (ast.If, ast.Try, ast.With)):
                 # compound statement: substitute only if nothing inside can change the value (a loop re-executes its body)
-                if _kills(st, paths, names | {name}, attrs, value) and not self._self_store_only(st, name, value, paths, attrs):
+                if _kills(st, paths, names | {name}, attrs, value, alias=name) and not self._self_store_only(st, name, value, paths, attrs):
                     # the header expression of a non-loop compound statement is evaluated before its body
                     if isinstance(st, ast.If):
                         st.test = S().visit(st.test)
@@ -1234,7 +1267,7 @@ class CopyProp:
                 continue
             # simple statement: its reads happen before its own store
             S().visit(st)
-            if _kills(st, paths, names | {name}, attrs, value):
+            if _kills(st, paths, names | {name}, attrs, value, alias=name):
                 killed = True
         return done, left
 
@@ -1521,10 +1554,17 @@ class Canon(ast.NodeTransformer):
         if isinstance(node.func, ast.Name) and node.func.id in ("all", "any") and len(node.args) == 1 and not node.keywords \
                 and isinstance(node.args[0], (ast.GeneratorExp, ast.ListComp)) and len(node.args[0].generators) == 1:
             g = node.args[0].generators[0]
-            if isinstance(g.iter, (ast.Tuple, ast.List)) and 0 < len(g.iter.elts) <= 8 and not g.ifs and isinstance(g.target, ast.Name):
-                vals = [self.visit(_subst_names(node.args[0].elt, {g.target.id: e})) for e in g.iter.elts]
-                op = ast.And() if node.func.id == "all" else ast.Or()
-                return ast.copy_location(vals[0] if len(vals) == 1 else ast.BoolOp(op=op, values=vals), node)
+            if isinstance(g.iter, (ast.Tuple, ast.List)) and 0 < len(g.iter.elts) <= 12 and not g.ifs:
+                envs = None
+                if isinstance(g.target, ast.Name):
+                    envs = [{g.target.id: e} for e in g.iter.elts]
+                elif isinstance(g.target, (ast.Tuple, ast.List)) and all(isinstance(t, ast.Name) for t in g.target.elts) \
+                        and all(isinstance(e, (ast.Tuple, ast.List)) and len(e.elts) == len(g.target.elts) for e in g.iter.elts):
+                    envs = [dict(zip([t.id for t in g.target.elts], e.elts)) for e in g.iter.elts]
+                if envs is not None:
+                    vals = [self.visit(_subst_names(node.args[0].elt, env)) for env in envs]
+                    op = ast.And() if node.func.id == "all" else ast.Or()
+                    return ast.copy_location(vals[0] if len(vals) == 1 else ast.BoolOp(op=op, values=vals), node)
         return node
 
     def _index_pairs(self, node):
@@ -1957,5 +1997,8 @@ def normalise_functions(tree):
                 if not CopyProp().run(node):
                     break
                 n += 1
+    from .normalize2 import Desugar
+    ast.fix_missing_locations(tree)
+    Desugar().visit(tree)   # forms that only appear once values have been propagated: partial(f, a)(b), attrgetter("x")(e), ...
     Canon().visit(tree)
     return n
